@@ -242,6 +242,46 @@ func genUciDet(o *Out, r *rand.Rand, thorough bool) {
 
 // ---- interleavings (checked by a monitor over the event trace) ------------------------------------
 
+// junkUciLine returns a command line that is almost a proper one (valid UTF-8, no step separator).
+func junkUciLine(r *rand.Rand) string {
+	bases := []string{
+		"position startpos moves e2e4 e7e5 g1f3 b8c6",
+		"position fen r3k2r/p1ppqpb1/bn2pnp1/3PN3/1p2P3/2N2Q1p/PPPBBPPP/R3K2R w KQkq - 0 1 moves e1g1 e8c8",
+		"position fen 8/4P1k1/8/8/8/8/1r6/1R5K w - - 0 1 moves e7e8n",
+		"go depth 2", "go wtime 1000 btime 1000 movestogo 5", "go movetime 40", "go infinite", "go nodes 100 depth 1",
+		"setoption name Hash value 16", "setoption name Noise value 5", "ucinewgame", "stop", "debug on", "ponderhit",
+	}
+	junk := []string{"b5é", "e2é", "e2日", "g1ф", "é2e4", "ｅ２ｅ４", "e2e4\u00a0", "e7e8x", "e7e8", "a9a1", "e2e", "e2e4e4", "E2E4", "ĲĴĲĴ", "eĲeĴ",
+		"99999999999999999999", "-9223372036854775808", "9223372036854775807", "-1", "0x10", "1e3", "NaN", "+5", "İ", "\u0085", "\u200b",
+		"moves", "fen", "startpos", "name", "value", "depth", "", strings.Repeat("e2e4", 80), strings.Repeat("9", 400), "--", "e2e4;", "#", "0000", "(none)"}
+	w := strings.Split(bases[r.Intn(len(bases))], " ")
+	switch r.Intn(6) {
+	case 0, 1: // replace a word
+		w[r.Intn(len(w))] = junk[r.Intn(len(junk))]
+	case 2: // insert a word
+		k := r.Intn(len(w) + 1)
+		w = append(w[:k], append([]string{junk[r.Intn(len(junk))]}, w[k:]...)...)
+	case 3: // drop a word
+		if len(w) > 1 {
+			k := r.Intn(len(w))
+			w = append(w[:k], w[k+1:]...)
+		}
+	case 4: // double a word
+		k := r.Intn(len(w))
+		w = append(w[:k+1], w[k:]...)
+	default: // the last word cut short or extended by a non-ASCII letter
+		l := w[len(w)-1]
+		if r.Intn(2) == 0 && len(l) > 1 {
+			w[len(w)-1] = l[:len(l)-1]
+		} else {
+			w[len(w)-1] = l + []string{"é", "日", "ß", "Ĵ"}[r.Intn(4)]
+		}
+	}
+	line := strings.Join(w, " ")
+	line = strings.ReplaceAll(strings.ReplaceAll(line, ";;", ";"), "##", "#")
+	return line
+}
+
 type raceScript struct {
 	kind  string
 	steps []string
@@ -264,8 +304,15 @@ func monitor(sc raceScript, trace string) string {
 	cur, _ = positionAfter("position startpos")
 	answered := 0
 	goSeen := false
+	lenient := false
 	for i, st := range sc.steps {
 		tok := toks[i]
+		if strings.HasPrefix(st, "lenient") {
+			// junk `go` lines may or may not start searches, and the answer of a search that has finished may be printed after the
+			// next command was read (the forwarder prints on its own): in such a stretch answers are not counted or attributed
+			lenient = st == "lenient on"
+			continue
+		}
 		if strings.HasPrefix(st, "> position") {
 			if b, ok := positionAfter(st[2:]); ok {
 				cur = b
@@ -283,7 +330,7 @@ func monitor(sc raceScript, trace string) string {
 			return fmt.Sprintf("VIOLATION:%s at step %d (%s)", name, i, st)
 		}
 		for _, l := range strings.Split(outs, ",") {
-			if !strings.HasPrefix(l, "bestmove_") {
+			if !strings.HasPrefix(l, "bestmove_") || lenient {
 				continue
 			}
 			mv := strings.TrimPrefix(l, "bestmove_")
@@ -383,8 +430,26 @@ func raceScripts(r *rand.Rand, n int) []raceScript {
 				"> go wtime 1000 btime 1000 movestogo -1", "> go wtime 600 btime 600 movestogo 0", "> go wtime 800 btime 800 movestogo -2", "> go movestogo -1 movetime 200"}[r.Intn(12)]
 			ret = append(ret, raceScript{kind, []string{"slow 30", "> " + posA[a], g, "wait-bestmove 9000", "quiet 400", "sync"}, "time limits"})
 		case 6: // unknown and malformed lines
-			ret = append(ret, raceScript{kind, []string{"> foo bar", "> ", "> go depth", "sync", "> go depth x", "sync", "> position fen 8/8 w - - 0 1", "sync", "> position startpos moves e2e5", "sync", "> setoption", "> debug on",
-				"> " + posB[b], "> go depth 1", "wait-bestmove 8000", "alive"}, "malformed lines"})
+			if i%22 == 6 {
+				ret = append(ret, raceScript{kind, []string{"> foo bar", "> ", "> go depth", "sync", "> go depth x", "sync", "> position fen 8/8 w - - 0 1", "sync", "> position startpos moves e2e5", "sync", "> setoption", "> debug on",
+					"> " + posB[b], "> go depth 1", "wait-bestmove 8000", "alive"}, "malformed lines"})
+			} else {
+				// generated junk: well-formed commands with one token replaced, inserted, dropped or doubled (non-ASCII tokens whose byte
+				// length differs from their rune length, numbers beyond every integer type, empty words, very long words); every line
+				// must be survived and isready answered after it, and a proper position + go must then get its legal answer
+				steps := []string{"lenient on"}
+				for k := 0; k < 10; k++ {
+					l := junkUciLine(r)
+					steps = append(steps, "> "+l, "sync")
+					if strings.HasPrefix(l, "position") {
+						// whatever the driver made of it, the game is set up afresh, so that the monitor knows the position of later searches
+						steps = append(steps, "> ucinewgame", "> position startpos", "sync")
+					}
+				}
+				// an endless search a junk `go` may have started is ended; its answer may come after the readyok
+				steps = append(steps, "> stop", "sync", "settle 400", "lenient off", "> ucinewgame", "> "+posB[b], "> go depth 1", "wait-bestmove 8000", "alive")
+				ret = append(ret, raceScript{kind, steps, "generated junk lines"})
+			}
 		case 7: // a second go supersedes the first
 			ret = append(ret, raceScript{"plain", []string{"slow 100", "> " + posA[a], "> go depth 5", fmt.Sprintf("sleep %d", 10+r.Intn(50)), "> go depth 1", "wait-bestmove 8000", "quiet 1500", "sync"}, "go during search"})
 		case 8: // ucinewgame / position during a search, then nothing may be reported
